@@ -951,6 +951,40 @@ func main() {
 		}
 	})
 	r.Register("consts", func(a []string) string { return sourceConsts() })
+	// vdr a0 a1 a2: Session.ValidateDefaultRouter against a responder inside WriteTo that answers the k-th
+	// echo request (to the request's own source address) iff a_k = T; an unanswered ping costs its 2 s
+	r.Register("vdr", func(a []string) string {
+		if len(a) != 3 {
+			return "badargs"
+		}
+		e := newExecutor()
+		k := 0
+		e.hconn.setHook(func(frame []byte) error {
+			dst, id, ok := decodeEchoRequest(frame)
+			if !ok || dst != peerIP4(9) || len(frame) < 34 {
+				return nil
+			}
+			answer := k < 3 && a[k] == "T"
+			k++
+			if answer {
+				srcIP, _ := netip.AddrFromSlice(frame[14+12 : 14+16])
+				e.parseFrame(lib.MkEther(net.HardwareAddr(frame[6:12]), peerMAC(9), 0x0800,
+					lib.MkIP4(peerIP4(9), srcIP, 1, 64, lib.MkICMPEcho(0, 0, uint16(id), 1, nil))))
+			}
+			return nil
+		})
+		err := e.sess.ValidateDefaultRouter(packet.Addr{MAC: peerMAC(9), IP: peerIP4(9)})
+		out := "other"
+		switch {
+		case err == nil:
+			out = "nil"
+		case errors.Is(err, packet.ErrNotRedirected):
+			out = "notredirected"
+		case errors.Is(err, packet.ErrTimeout):
+			out = "timeout"
+		}
+		return out + "/" + strconv.Itoa(k)
+	})
 	if *childFlag != "" {
 		a := strings.Fields(*childFlag)
 		n, _ := strconv.Atoi(a[0])
@@ -970,6 +1004,23 @@ func main() {
 		panic(err)
 	}
 	r.Do("consts", "now") // source-derived constants against the model's own computation
+	// ValidateDefaultRouter's decision in isolation (every unanswered ping is a real 2 s wait)
+	vdrMasks := [][3]string{{"T", "T", "T"}, {"T", "T", "F"}, {"T", "F", "T"}}
+	if r.Thorough() {
+		vdrMasks = append(vdrMasks, [3]string{"F", "T", "T"}, [3]string{"T", "F", "F"}, [3]string{"F", "F", "F"})
+	}
+	var vwg sync.WaitGroup
+	vobs := make([]string, len(vdrMasks))
+	for i, m := range vdrMasks {
+		vwg.Add(1)
+		go func(i int, m [3]string) { defer vwg.Done(); vobs[i] = r.Exec("vdr", m[:]) }(i, m)
+	}
+	defer func() {
+		vwg.Wait()
+		for i, m := range vdrMasks {
+			r.Case("vdr", m[:], vobs[i])
+		}
+	}()
 	scs := append(corpusScenarios(), generate(r, r.Rand())...)
 	workers := runtime.NumCPU() / 2
 	if workers < 2 {
